@@ -748,13 +748,18 @@ class SumCorr(Corr):
         return d
 
 
+from harness.props import tracking_corr as TC
+
+
 class C05(Prop):
     id = "C05"
     props_file = "Props/C05.v"
     gen_files = []
     design_ref = "DESIGN.md section 4, C05"
     technique = ("Rocq proof over an executable Gallina model of CLEAR.__init__/_calculate_tp_fp/_is_id_switched/_is_same_match/"
-                 "_calculate_score/_sum_clear; in-Coq correspondence with the real CLEAR and TrackingMetricsScore on generated histories")
+                 "_calculate_score/_sum_clear and of the tracking glue (divide_objects, evaluate_frame's tracking branch, evaluate_tracking, "
+                 "add_frame_result's predecessor, get_scene_result); in-Coq correspondence with the real CLEAR, TrackingMetricsScore and the real "
+                 "manager in tracking mode on generated histories")
     level_text = ("Theorems (Props/C05.v, closed under the global context) hold for ALL histories (any number of frames and results), both "
                   "matching directions, all target-label/threshold lists: every result of an evaluated label after the first frame adds exactly 1 "
                   "to TP or FP (clear_partition); under per-frame uniqueness of estimated tracks and ground-truth ids (more generally a consistent "
@@ -764,7 +769,7 @@ class C05(Prop):
                   "renaming of estimated and ground-truth ids; perfect tracker => 0 switches, 0 FP, MOTA 1; one brand-new id on a continuing target "
                   "=> exactly 1 switch; one exchange of two identities => exactly 2 (any length, any frame, any number of other targets with births "
                   "and deaths). The model is compared with the real CLEAR / TrackingMetricsScore inside Coq on every generated history "
-                  "(counters exactly, scores within 1e-9, inf cases).")
+                  "(counters exactly, scores within 1e-9, inf cases). " + TC.LEVEL_TEXT)
     level_note = ("Refuted reading (Props/C05.v C05_prev_tp_by_own_label_refuted, replayed on the real code every run): the code judges whether a "
                   "previous-frame result is a TP with the CURRENT result's label threshold, not with the previous result's own label; the two readings "
                   "coincide for a single threshold with all previous results of evaluated labels (C05_prev_tp_by_own_label_partial). "
@@ -772,25 +777,36 @@ class C05(Prop):
                   "from the real objects through public getters; their geometric meaning is C06's business.")
     rule = ("histories of real DynamicObjectWithPerceptionResult objects; exhaustive frame pairs over ids {0,1} (<=2 results), sampled "
             "3-4 frame histories over ids {0,1,2} (<=3 results), threshold/label/degenerate boundaries, tracker shapes (perfect, one new id, "
-            "one swap), random long tracker histories (2-40/60 frames, 0-10/12 results); non-trivial = at least one TP or FP counted")
+            "one swap), random long tracker histories (2-40/60 frames, 0-10/12 results); non-trivial = at least one TP or FP counted; "
+            "tracking glue: " + TC.RULE)
     assumptions = ["tp_metrics = TPMetricsAp (the default, the only one TrackingMetricsScore uses): TP value 1.0",
                    "len(target_labels) == len(matching_threshold_list) (asserted by TrackingMetricsScore)",
                    "get_matching(mode) is not None (3D objects or 2D objects with a ROI); IoU thresholds within [0,1]",
                    "uuids are strings, not None",
-                   "clear_refines_spec: the TPs of every frame form a consistent pairing (implied by per-frame unique estimated (uuid,label) and unique GT uuids)"]
+                   "clear_refines_spec: the TPs of every frame form a consistent pairing (implied by per-frame unique estimated (uuid,label) and unique GT uuids)"] + TC.ASSUMPTIONS
     not_proved = ["other TPMetrics (TPMetricsAph/TPMetricsConfidence weights) in CLEAR",
                   "the spec for frames in which two results share an estimated track or a ground truth (there the loop is order-dependent; "
                   "partition, formulas and renaming invariance are proved without that assumption)",
                   "float rounding of the score sums (compared within 1e-9)",
-                  "how MetricsScore/the manager builds the per-label histories (C13)"]
+                  ] + TC.NOT_PROVED
+
+    extra_props_files = ["Props/C05Pipeline.v"]
 
     def correspondences(self):
-        return [SmallCorr(), LongCorr(), SumCorr()]
+        return [SmallCorr(), LongCorr(), SumCorr(), TC.TrackingPipelineCorr()]
 
     def known_match(self, finding, corr_name, case, obs, msg):
+        if TC.known_match(finding, corr_name, case, obs, msg):
+            return True
         return finding.get("class") == FINDING_CLASS and isinstance(msg, str) and msg.startswith(FINDING_PREFIX)
 
+    def cleanup(self):
+        from harness.props import manager_common as MC
+        MC.cleanup_tmp(all_pids=True)
+
     def known_probe(self, finding):
+        if TC.known_probe(finding):
+            return True
         if finding.get("class") != FINDING_CLASS:
             return False
         w = WITNESS_W1
